@@ -1,5 +1,20 @@
 ---- MODULE Sim_RemoteClient ----
 EXTENDS MC_RemoteClient
 Keys3 == {1, 2, 3}
+Keys1 == {1}
 SimSpec == Spec
+\* a second family of random walks for the notification stream (C17): the handshake succeeds, few calls, many notifications
+\* (TLC's simulator picks among successor states, so the many Call / Accept variants would otherwise crowd the notifications out)
+NoteNext == \/ (~Stuck /\ \/ Accept("valid")
+                          \/ (steps > 9 /\ \E v \in {"badsig", "replay"} : Accept(v))
+                          \/ \E n \in 0..4 : Ready(n)
+                          \/ \E n \in 2..3 : ReadyRace(n)
+                          \/ \E k \in Slots, key \in Keys : Call(k, "GetTx", key) \/ Call(k, "GetHeaders", key)
+                          \/ \E k \in Slots, f \in {"ok"} : Respond(k, f)
+                          \/ \E kind \in {"tx", "upd", "insync", "hdrs"}, id \in 1..6 : Notify(kind, id)
+                          \/ \E kind \in {"tx", "upd"} : Notify(kind, nextId)          \* the expected id twice as likely
+                          \/ (\E b \in {7} : Burst(b))
+                          \/ (steps > 9 /\ Stop))
+            \/ (steps > 3 /\ Drop)
+NoteSpec == Init /\ [][NoteNext]_vars
 ====
